@@ -15,14 +15,19 @@ def table_cases():
     list or a function) x run-original x substitute (incl. falsy ones and callables); the expected answer is computed here
     from the documentation, independently of the model"""
     out = []
-    for arg, fb, fbfn, ro, si in itertools.product([1, 2], [None, ['A'], ['Z'], ['Z', 'A']], [False, True], [False, True],
-                                                   range(len(SUBSTITUTES))):
-        if fb is None and fbfn:
+    for arg, fb, fbk, ro, si in itertools.product([1, 2], [None, ['A'], ['Z'], ['Z', 'A']],
+                                                  [False, True, 'tuple', 'keys', 'frozenset'], [False, True], range(len(SUBSTITUTES))):
+        # the fallback aliases are given as a list, through a function, or as another iterable (a tuple, the keys of a rename
+        # map, a frozenset constant - of one alias: a set has no order)
+        fbfn, shape = fbk is True, fbk if isinstance(fbk, str) else None
+        if fb is None and fbk:
+            continue
+        if shape == 'frozenset' and len(fb) != 1:
             continue
         rec_site = {'kind': 'in', 'alias': 'A', 'flavor': 'instance', 'capture': 'all', 'resolver': None, 'nargs': 1,
                     'kwnames': [], 'handler': '', 'runOriginal': False, 'substitute': None, 'fallbacks': None,
                     'body': [{'op': 'ret', 'e': {'t': [{'c': {'s': 'recorded'}}, {'v': 'a0'}]}}]}
-        q_site = dict(rec_site, alias='Q', runOriginal=ro, substitute=SUBSTITUTES[si], fallbacks=fb,
+        q_site = dict(rec_site, alias='Q', runOriginal=ro, substitute=SUBSTITUTES[si], fallbacks=fb, fallbacksShape=shape,
                       fallbacksAsFunction=fbfn, body=[{'op': 'ret', 'e': {'c': {'s': 'live'}}}])
         out_site = {'kind': 'out', 'alias': 'send', 'flavor': 'instance', 'nargs': 1, 'kwnames': [], 'handler': '',
                     'failOnMissing': not ro, 'default': {'s': 'dflt'} if si % 2 else None,
@@ -127,8 +132,8 @@ def order_cases():
 
 class C02(RecorderProp):
     ID = 'C02'
-    RULE = ('the documented missing-key policy table enumerated exhaustively (key present/absent x fallback aliases as list or '
-            'function x run-original x substitute incl. falsy values and callables x output default / fail flag, recording '
+    RULE = ('the documented missing-key policy table enumerated exhaustively (key present/absent x fallback aliases as list, function, tuple, keys of a map or '
+            'frozenset x run-original x substitute incl. falsy values and callables x output default / fail flag, recording '
             'enabled and disabled during play, two replays) with answers expected from the documentation; then random pairs '
             '(recorded program, different replayed program) with random policies, 1-3 replays per recording, on memory / file / '
             'S3 cassettes; spy cassette log and serialized store compared before/after every play; non-trivial = a replay that '
